@@ -32,8 +32,8 @@ Mut = Dict[str, object]
 MUTANTS: Dict[str, Mut] = {}
 
 
-def mut(mid: str, prop: str, what: str, edits: List[Tuple[str, str, str]]) -> None:
-    MUTANTS[mid] = {"property": prop, "what": what, "edits": edits}
+def mut(mid: str, prop: str, what: str, edits: List[Tuple[str, str, str]], base_patch: str = "") -> None:
+    MUTANTS[mid] = {"property": prop, "what": what, "edits": edits, "base_patch": base_patch}
 
 
 # ---- C14 -------------------------------------------------------------------
@@ -161,6 +161,12 @@ mut("M27", "C20", "document decode errors of the UTF-8 kind escape again", [
 ])
 
 
+mut("M28", "C16", "S-C16f's spare traversal stack with read and clear collapsed into ONE source line (window between two bytecodes; needs instruction-level pre-emption)", [
+    (P + "segments.py", "        stack: List[Iterator[JSONPathNode]] = (\n            self._spare_stack if self._spare_stack is not None else []\n        )\n        stack.append(iter((node,)))\n        self._spare_stack = None\n",
+     "        stack, self._spare_stack = (self._spare_stack if self._spare_stack is not None else []), None\n        stack.append(iter((node,)))\n"),
+], base_patch="seeded/S-C16f/patch.diff")
+
+
 def apply_edits(root: str, edits: List[Tuple[str, str, str]]) -> None:
     for rel, old, new in edits:
         path = os.path.join(root, rel)
@@ -196,6 +202,10 @@ def main(argv: List[str]) -> int:
             subprocess.run(["rsync", "-a", "--exclude", ".git", "--exclude", "__pycache__", REPO + "/", root + "/"], check=True)
             t0 = time.monotonic()
             try:
+                if m.get("base_patch"):
+                    pr = subprocess.run(["patch", "-p1", "--no-backup-if-mismatch", "-i", os.path.join(VERIF, str(m["base_patch"]))], cwd=root, capture_output=True, text=True, check=False)
+                    if pr.returncode != 0:
+                        raise RuntimeError("base patch does not apply: " + pr.stdout[-300:])
                 apply_edits(root, m["edits"])  # type: ignore[arg-type]
             except RuntimeError as exc:
                 results[mid] = {"status": "DOES-NOT-APPLY", "detail": str(exc)}
